@@ -363,6 +363,27 @@ def opLsml : P String := do
   let G := (lsmlGradient M P Minv quads).store
   return "ok " ++ renderArr (#[lsmlLoss M P logdet quads] ++ (Mat.ofStore G).toArray)
 
+/-- C10: documented objectives of NCA / MLKR / LMNN (Float twin) -/
+def opObjective (op : String) : P String := do
+  let k ← nat; let d ← nat; let n ← nat
+  let L := Mat.ofStore (← readStore Float k d)
+  let X := Mat.ofStore (← readStore Float n d)
+  match op with
+  | "nca_obj" => do
+      let y ← intArr n; finish
+      return "ok " ++ Wire.render (ncaObjective L X (fun i => y.getD i.val 0))
+  | "mlkr_obj" => do
+      let y ← arr Float n; finish
+      return "ok " ++ Wire.render (mlkrObjective L X (Vec.ofArray y n))
+  | "lmnn_obj" => do
+      let y ← intArr n; let reg ← scalar Float; let kT ← nat
+      let t ← natArr (n * kT); finish
+      if h : n = 0 then throw "no samples" else
+      let targets : Fin n → List (Fin n) := fun i =>
+        (List.range kT).map fun j => ⟨t.getD (i.val * kT + j) 0 % n, Nat.mod_lt _ (Nat.pos_of_ne_zero h)⟩
+      return "ok " ++ Wire.render (lmnnObjective L X (fun i => y.getD i.val 0) targets reg)
+  | _ => throw s!"unknown op {op}"
+
 def optInt : P (Option Int) := do
   let t ← next
   if t == "none" then return none
@@ -401,6 +422,7 @@ def dispatch : P String := do
   | "sdp_check" | "cfm_eig" | "cfm_diag" | "pinv_eig" | "init_metric" => opPsd op
   | "pairs" | "chunks" | "knn_class" | "knn_clip" => opConstraints op
   | "form" => opForm
+  | "nca_obj" | "mlkr_obj" | "lmnn_obj" => opObjective op
   | "lsml_eval" => opLsml
   | "scml_replay" => opScml
   | "mmc_budget" | "mmc_fd" | "mmc_gradproj" | "mmc_halfspace" | "mmc_psdproj" | "mmc_dobj" => opMmc op
